@@ -37,7 +37,7 @@ def composition(ctx):
     bad = vlib.validate_trace(ctx, "IotaCrypto", ev, label="T_compose")
     for b in bad:
         if b["op"] == "compose.kdf" and b["out"].get("ok") and b["out"].get("addr") == b.get("facts", {}).get("blake"):
-            for e in vlib.reproduce(ctx, cb, [b]):
+            for e in vlib.reproduce(ctx, cb, [b], history=ev):
                 e = dict(e)
                 e.pop("facts", None)
                 ctx.bad.append(dict(event=e, reason="composition: address / Bech32 stage of the kdf pipeline differs from IotaCrypto"))
@@ -64,7 +64,7 @@ def run(ctx):
     vlib.note_events(ctx, ev)
     bad = vlib.validate_trace(ctx, "AddressTrace", ev)
     for pk, binp in bins.items():
-        for e in vlib.reproduce(ctx, binp, [b for b in bad if b["op"].startswith(pk + ".")]):
+        for e in vlib.reproduce(ctx, binp, [b for b in bad if b["op"].startswith(pk + ".")], history=ev):
             ctx.bad.append(dict(event=e, reason="real %s disagrees with the Address specification" % e["op"]))
     composition(ctx)
     return vlib.finish(ctx, LEVEL, RULE, ASSUME, matchers=bc.MATCHERS,
